@@ -144,6 +144,8 @@ int ubuf_sound_common_plane_map(struct ubuf *ubuf, const char *channel,
     /* Check offsets. */
     if (offset < 0)
         offset = common->size + offset;
+    if (unlikely(offset < 0 || offset > common->size))
+        return UBASE_ERR_INVALID;
 
     /* Check sizes - we don't actually use them. */
     if (size < 0)
@@ -174,7 +176,7 @@ int ubuf_sound_common_resize(struct ubuf *ubuf, int offset, int new_size)
 
     if (offset < 0)
         offset += common->size;
-    if (unlikely(offset < 0))
+    if (unlikely(offset < 0 || offset > common->size))
         return UBASE_ERR_INVALID;
     if (unlikely(new_size == -1))
         new_size = common->size - offset;
